@@ -3496,7 +3496,7 @@ def Gillespie_SIS(G, tau, gamma, initial_infecteds=None, rho = None, tmin = 0,
         node_history = _transform_to_node_history_(infection_times, recovery_times, tmin, SIR = False)
         if sim_kwargs is None:
             sim_kwargs = {}
-        return EoN.Simulation_Investigation(G, node_history, possible_statuses=['S', 'I'], **sim_kwargs)
+        return EoN.Simulation_Investigation(G, node_history, transmissions, possible_statuses=['S', 'I'], **sim_kwargs)
 
 def Gillespie_complex_contagion(G, rate_function, transition_choice, 
     get_influence_set, IC, return_statuses, tmin = 0, tmax=100, parameters = None, 
